@@ -223,6 +223,15 @@ def snapshot(sch):
     return {"rungs": rungs, "trial_info": info, "num_stopped": int(sch._num_stopped)}
 
 
+def digest(bracket):
+    """rungs are append-only: milestone, number of entries, last entry"""
+    return [[m, len(rec), rec[-1] if rec else None] for m, rec in bracket]
+
+
+def light(snap):
+    return {"trial_info": snap["trial_info"], "num_stopped": snap["num_stopped"]}
+
+
 def metric_values(seed, tid, r, k, style):
     rr = random.Random(seed * 7919 + tid * 104729 + r * 31)
     if style == "grid":
@@ -270,6 +279,7 @@ def run_moasha(spec):
     trials, workers, late = {}, {}, []
     next_id = 0
     sink = io.StringIO()
+    last_rungs = [lines[0][1]["rungs"]]
 
     def feed(op, tid, r, fn):
         raw = metric_values(spec["seed"], tid, r, k, spec["style"])
@@ -297,7 +307,11 @@ def run_moasha(spec):
         else:
             inp["hint"] = True
         after = snapshot(sch)
-        out.update(after)
+        last_rungs[0] = after["rungs"]
+        # the line carries the rungs of the trial's own bracket only (the monitor sees all of them)
+        bidx = dict((x, y) for x, y in before["trial_info"]).get(tid)
+        out.update({"bracket_rungs": None if bidx is None else digest(after["rungs"][bidx]),
+                    "trial_info": after["trial_info"], "num_stopped": after["num_stopped"]})
         lines.append((inp, out))
         events.append({"ev": op, "trial": tid, "iter": r, "raw": raw, "decision": d, "before": before, "after": after,
                        "prio_calls": calls})
@@ -321,8 +335,8 @@ def run_moasha(spec):
                     sch.on_trial_add(trials[tid])
                 snap = snapshot(sch)
                 br = dict((t, b) for t, b in snap["trial_info"])[tid]
-                lines.append(({"op": "add", "trial": tid, "bracket": br}, snap))
-                events.append({"ev": "add", "trial": tid, "bracket": br})
+                lines.append(({"op": "add", "trial": tid, "bracket": br}, light(snap)))
+                events.append({"ev": "add", "trial": tid, "bracket": br, "rungs_changed": snap["rungs"] != last_rungs[0]})
                 upto = max_t if rng.random() >= spec.get("p_short", 0) else rng.randint(1, max_t)
                 start = 1 if rng.random() >= spec.get("p_jump", 0) else rng.randint(1, max(1, max_t // 2))
                 workers[tid] = [start, upto]
@@ -337,8 +351,9 @@ def run_moasha(spec):
                 if d != SchedulerDecision.CONTINUE:
                     del workers[tid]
                     sch.on_trial_remove(trials[tid])
-                    lines.append(({"op": "remove", "trial": tid}, snapshot(sch)))
-                    events.append({"ev": "remove", "trial": tid})
+                    snap = snapshot(sch)
+                    lines.append(({"op": "remove", "trial": tid}, light(snap)))
+                    events.append({"ev": "remove", "trial": tid, "rungs_changed": snap["rungs"] != last_rungs[0]})
                     late.append((tid, r + 1))
                 elif r >= upto:
                     # the training script ends by itself: the loop hands the last result to on_trial_complete
